@@ -91,6 +91,16 @@ TEXT.update({
             "PathBuf/Cow/iterator chains have no usable specs and exceed CBMC; timestamps rename (creation_timestamp_of_currentfile) is an assumed oracle."),
 })
 
+TEXT.update({
+    "C16": ("Verus proves, unbounded in all strings, that FileSpec::fixed_name_part / as_pathbuf / append_underscore_if_not_empty build exactly "
+            "dir/[basename][_discriminant][_starttime][_infix][.suffix] with absent parts and their separators omitted, that open_log_file opens exactly "
+            "that path and State stores it, and that existing_log_files returns, in order, exactly the listings of the categories the selector asks for "
+            "(plain, gz, rCURRENT, custom current) resp. the single recomputed path without rotation. The start-time clause is specified as the program "
+            "start; the verifier shows get_timestamp uses the current clock instead (known finding F11).",
+            "FileSpec::try_from (Path parent/file_stem/extension: no specs; finding F4 from reproduction), the symlink, and the directory listing itself "
+            "(read_dir_related_files / filter_files are oracles) are not decided; PathBuf::push is an uninterpreted join."),
+})
+
 NOT_APPLICABLE = {
     "C03": "quantifier is thread schedules: Kani has no threads, Verus would need its own permission-typed locks instead of std::sync::Mutex/crossbeam/thread_local; mutual exclusion is a typing fact, not a contract",
     "C11": "quantifier is crash points between file-system effects: contracts describe completed calls, effect order is invisible to result oracles, no crash-aware program logic for Rust is installed",
